@@ -118,7 +118,7 @@ def main():
             "enable": "the harness depends on qrlew by path with features [\"sqlite\", \"qrlew_verif\"] (harness/Cargo.toml); cargo build --features qrlew_verif in /repo",
             "baseline_off_cmd": "/verif/baseline_off.sh",
             "source_commits": ["80602cb"],
-            "fix_commits": ["11afd7c", "f09b54c", "2b20237", "0e4f4eb", "3b8a08b", "3aeabf5", "eb6a376", "4895a09", "c8d5a4c", "e342fc3", "940e3b2", "510ec4c"],
+            "fix_commits": ["11afd7c", "f09b54c", "2b20237", "0e4f4eb", "3b8a08b", "3aeabf5", "eb6a376", "4895a09", "c8d5a4c", "e342fc3", "940e3b2", "510ec4c", "a036dfd", "9167b6b"],
             "add_only": True,
         },
         "engines": [{"name": "qv", "path": "/verif/harness", "serves_properties": sorted(CHECKS), "kind_free_text": "Rust binary linking the real qrlew crate from /repo's working tree; deterministic exhaustive enumerators, explicit-state search (stateright), in-process SQLite as independent SQL semantics"}],
